@@ -255,6 +255,7 @@ class OptimizerMixin:
         # Preserve optimizer state and param_group settings
         old_state = self._optimizer.state.copy()
         current_param_group = self._optimizer.param_groups[0].copy()
+        old_params = list(current_param_group["params"])
 
         # Reconnect to new parameters
         self._optimizer.param_groups.clear()
@@ -263,15 +264,18 @@ class OptimizerMixin:
         # Update state mapping and move tensors to correct device
         new_state = {}
         device = optimizable_params[0].device
-        for i, old_param in enumerate(old_state.keys()):
-            if i < len(optimizable_params):
-                new_param = optimizable_params[i]
-                new_state[new_param] = {}
-                for key, value in old_state[old_param].items():
-                    if isinstance(value, torch.Tensor):
-                        new_state[new_param][key] = value.to(device)
-                    else:
-                        new_state[new_param][key] = value
+        # pair old and new parameters by their position in the param group: a parameter that never
+        # received a gradient has no state entry, so the order of the state dict is not the order
+        # of the parameters
+        for old_param, new_param in zip(old_params, optimizable_params):
+            if old_param not in old_state:
+                continue
+            new_state[new_param] = {}
+            for key, value in old_state[old_param].items():
+                if isinstance(value, torch.Tensor):
+                    new_state[new_param][key] = value.to(device)
+                else:
+                    new_state[new_param][key] = value
 
         self._optimizer.state.clear()
         self._optimizer.state.update(new_state)
